@@ -71,6 +71,10 @@ type Exec struct {
 	havocAllCount int
 	specErrs []string
 	pureMemo map[string]pureMemo
+	lastCallName string
+	nscope int
+	prop string
+	callScope string
 }
 
 func (x *Exec) freshVar(hint string, s Sort) *Term {
@@ -565,6 +569,18 @@ func (x *Exec) enterFacts(st *State, v *Term, t types.Type) {
 func (x *Exec) typeInvFacts(st *State, v *Term, t types.Type) {
 	pt, ok := t.Underlying().(*types.Pointer)
 	if !ok {
+		if _, isStruct := t.Underlying().(*types.Struct); isStruct {
+			// struct passed by value
+			for _, ti := range x.P.typeInvsOf(t) {
+				env := &Env{x: x, st: st, old: st, fn: x.fn, binds: map[string]specBinding{"self": {Val{T: v}, t}}, mode: "typeinv", pkg: x.P.pkgByPath(ti.Pkg)}
+				r := env.eval(ti.Clause.Expr)
+				if env.err != nil {
+					x.specError(ti.Clause.Expr, env.err)
+					continue
+				}
+				st.add(r.T)
+			}
+		}
 		return
 	}
 	for _, ti := range x.P.typeInvsOf(pt.Elem()) {
@@ -630,6 +646,12 @@ func (x *Exec) havoc(st *State, keys map[string]bool) {
 		oldTop := st.ghostInt("top")
 		st.heap = map[string]*Term{}
 		ng := map[string]*Term{}
+		for k, v := range st.ghost {
+			// the activation's own call records are not heap state
+			if strings.HasPrefix(k, "#call$") || strings.HasPrefix(k, "#arg$") || strings.HasPrefix(k, "#ret$") {
+				ng[k] = v
+			}
+		}
 		st.ghost = ng
 		nt := st.ghostInt("top")
 		st.add(Ge(nt, oldTop))
@@ -651,6 +673,15 @@ func (x *Exec) havoc(st *State, keys map[string]bool) {
 				}
 			}
 			st.bump["#spawnver"]++
+		case strings.HasPrefix(k, ghSpawn+"$"):
+			for _, g := range []string{k, ghSpawn} {
+				if old, ok := st.ghost[g]; ok {
+					st.ghost[g] = x.freshVar(g, SInt)
+					st.add(Ge(st.ghost[g], old))
+				} else {
+					st.bump[g]++
+				}
+			}
 		case k == ghLast:
 			for h := range st.heap {
 				if strings.HasPrefix(h, ghLast) {
